@@ -564,3 +564,11 @@ package render
 //@ panics nothing
 //@ assigns nothing
 //@ ensures lookup: result1 == has(g.blockDefs, name) && (result1 ==> result0 == mapget(g.blockDefs, name))
+
+//@ func (render.nodeContext).Evaluate
+//@ props C08 C01
+//@ panics nothing
+//@ requires args: expr != nil
+//@ assigns *
+//@ ensures keeps: @evalkeeps
+//@ ensures tree: @tree
